@@ -299,7 +299,8 @@ def rule_log_cleaning(ctx, r):
             "log cleaning is not guarded by `config clean_logs and not dry_run` (it runs when switched off or during a dry run)", run_f.where)
     others = [f for f in idx.functions.values() if f.key != run_f.key for c in _calls(f.node) if isinstance(c.func, ast.Name) and c.func.id == "clean_logs"
               and idx.canon(c.func, f.module) == "gwf.plugins.run.clean_logs"]
-    r.check(not others, con + "::callers", "clean_logs is called only by run", f"clean_logs is also called from {[o.qual for o in others]}", cl.where)
+    others = [o for o in others if not ctx.resolver.owned_by(o, ["gwf.plugins.run:run"])]
+    r.check(not others, con + "::callers", "clean_logs is called only by run (or helpers only run calls)", f"clean_logs is also called from {[o.qual for o in others]}", cl.where)
 
 
 def run(ctx):
